@@ -350,6 +350,16 @@ def c12_r6(ctx):
         else:
             ctx.ok()
     sd = f.constructs(ERR, "SelfDependentRule")
+    if not sd:
+        # the verdict raised somewhere else in the sorter: outside the search it is raised against
+        # rules the goal may never reach
+        for g in sort_fns(ctx.P):
+            for (bb, idx, rv, pl) in g.constructs(ERR, "SelfDependentRule"):
+                if g.id != f.id and g.loops():
+                    ctx.inst("SelfDependentRule", g.where(bb, idx))
+                    ctx.viol((g.id, "self-dependence-outside-search"), "SelfDependentRule is raised in %s, outside the depth-first search: a self-dependent rule that the goal does not depend on makes a valid goal-restricted build fail" % g.id, g.where(bb, idx))
+        if ctx.violations:
+            return
     ctx.need(sd, "SelfDependentRule construction")
     for (bb, idx, rv, pl) in sd:
         ctx.inst("SelfDependentRule", f.where(bb, idx))
